@@ -304,25 +304,22 @@ def compare_line(case, i, il, m, s, tags):
     sf = fields(s)
     if sf.get("nul") != "0":
         return ("spec", "the text contains a NUL byte")
-    if sf.get("scope") == "1" and not (inscope and utf8):
+    if sf.get("scope") == "1" and not inscope:
         return ("model", "scope disagreement between the Lean specification and the generator's oracle")
-    if inscope and utf8 and sf.get("scope") != "1":
+    if inscope and sf.get("scope") != "1":
         # the libc hypotheses (g17Shape / round trip of the reference) fail on a double of this tree
         return ("spec", "Lean specification: the tree is outside treeOk/roundTrips although it is inside the property: " + s)
     if inscope:
-        want = dict(rfc="1", den="1", doc="1", utf8="1" if utf8 else "0")
-        if not utf8:
-            # RFC 8259 text is UTF-8: the reader rejects it, and docOf is none, exactly because of the strings
-            want = dict(rfc="0", den="0", doc="0", utf8="0")
-            sf_chk = {k: sf.get(k) for k in want}
-            if sf_chk != want:
-                return ("spec", "Lean specification: non-UTF-8 strings must give non-RFC text, got " + s)
-        else:
-            sf_chk = {k: sf.get(k) for k in want}
-            if sf_chk != want:
-                return ("spec", "Lean specification rejects the text (rfc = reader accepts, den = denotes the tree, doc = is the rendering of docOf): " + s)
-            if kind == "rt" and nest(tree) < 32 and not (flags & 32) and sf.get("veq") != "1":
-                return ("spec", "re-parsed tree differs from the original under the property's equality: " + s)
+        # doc = the text is the rendering of the explicit document docOf (any string bytes); rfc = the independent reader accepts the
+        # text (which includes: the text is UTF-8); den = the document it read denotes the tree.  Bytes >= 0x80 are copied verbatim, so
+        # the text is RFC 8259 exactly when every string and key is UTF-8.
+        u = "1" if utf8 else "0"
+        want = dict(doc="1", u8tree=u, utf8=u, rfc=u, den=u)
+        if {k: sf.get(k) for k in want} != want:
+            return ("spec", "Lean specification rejects the text (doc = rendering of docOf, rfc = reader accepts, den = denotes the tree; "
+                            "strings %sUTF-8): %s" % ("" if utf8 else "not ", s))
+        if kind == "rt" and nest(tree) < 32 and not (flags & 32) and sf.get("veq") != "1":
+            return ("spec", "re-parsed tree differs from the original under the property's equality: " + s)
     return None
 
 
